@@ -1,5 +1,40 @@
+//! Workload "dump": observation logs of externally produced files for the Python oracles
+//! (C03, C12, C18, C20). One JSON object per file is appended to <out>.obs.jsonl.
+
+use crate::json::J;
+use crate::obs::*;
+use crate::scene::guarded;
 use crate::{Args, Reporter};
-pub fn run(_a: &Args, _rep: &mut Reporter) {
-    eprintln!("workload not built yet");
-    std::process::exit(2);
+use std::io::Write;
+
+pub fn run(a: &Args, rep: &mut Reporter) {
+    let files: Vec<String> = match a.get("filelist") {
+        Some(p) => std::fs::read_to_string(p).map(|s| s.lines().map(|l| l.to_string()).filter(|l| !l.is_empty()).collect()).unwrap_or_default(),
+        None => a.pos.clone(),
+    };
+    let opts: Vec<Opts> = match a.get("simple-opts") {
+        Some("all") => (0..64).map(Opts).collect(),
+        Some("default") => vec![Opts::DEFAULT],
+        _ => Vec::new(),
+    };
+    let obs_path = format!("{}.obs.jsonl", a.out);
+    let mut obs = std::io::BufWriter::new(std::fs::File::create(&obs_path).expect("cannot create obs file"));
+    let a2 = Args { workload: a.workload.clone(), seed: a.seed, shard: a.shard, shards: a.shards, cases: files.len() as u64, secs: a.secs, out: a.out.clone(), only: a.only, tier: a.tier.clone(), kv: a.kv.clone(), pos: a.pos.clone() };
+    let (done, reason) = crate::run_cases(&a2, rep, |idx, _cs, rep| {
+        let path = &files[idx as usize];
+        let bytes = match std::fs::read(path) {
+            Ok(b) => b,
+            Err(_) => return,
+        };
+        rep.stat("files_dumped", 1);
+        let r = guarded(|| dump_file(bytes, &opts, 1 << 22, true));
+        let j = match r {
+            Ok(j) => j,
+            Err(p) => J::obj().set("panic", J::s(&p)),
+        };
+        let line = J::obj().set("file", J::s(path)).set("obs", j);
+        let _ = writeln!(obs, "{}", line.dump());
+    });
+    let _ = obs.flush();
+    rep.finish(done, reason);
 }
